@@ -1427,9 +1427,22 @@ def kkt_chol2(G, dims, A, mnl = 0):
             try:
                 if type(F['S']) is matrix: 
                     lapack.potrf(F['S']) 
+                    d = F['S'][::n+1]
                 else:
                     F['Sf'] = cholmod.symbolic(F['S'])
                     cholmod.numeric(F['S'], F['Sf'])
+                    try: d = cholmod.diag(F['Sf'])
+                    except (TypeError, ValueError): d = None
+                # An exactly singular S can pass the factorization with 
+                # pivots of the order of the (amplified) rounding errors.  
+                # Treat a numerically singular S as singular (adding A'*A 
+                # below is valid in either case).
+                # S is certainly singular if H is absent and GG has fewer
+                # than n rows.
+                if p and ((H is None and mnl + ml < n) or 
+                    (d is not None and len(d) and 
+                    min(d)**2 <= 1e-8 * max(d)**2)):
+                    raise ArithmeticError("singular matrix")
             except ArithmeticError:
                 F['singular'] = True 
                 if type(A) is matrix and type(F['S']) is spmatrix:
